@@ -277,6 +277,49 @@ func (r *contRef) apply(op cop2) (string, bool) {
 			return fmt.Sprintf("ok %d", len(it)), true
 		}
 		return "err", false
+	case "load":
+		// y = a[i]: the VALUE read is bound (containers stay references)
+		item, _ := r.arg(op.a)
+		idx, _ := r.arg(op.i)
+		switch it := item.(type) {
+		case []interface{}:
+			i, ok := refToInt(idx)
+			if !ok || i < 0 || i >= len(it) {
+				return "err", false
+			}
+			r.vars[op.x] = it[i]
+			return "ok", true
+		case string:
+			i, ok := refToInt(idx)
+			if !ok || i < 0 || i >= len(it) {
+				return "err", false
+			}
+			r.vars[op.x] = string(it[i])
+			return "ok", true
+		case map[interface{}]interface{}:
+			if !hashable(idx) {
+				r.vars[op.x] = nil
+				return "ok", true
+			}
+			r.vars[op.x] = it[idx]
+			return "ok", true
+		}
+		return "err", false
+	case "swap":
+		item, ok := r.vars[op.x]
+		it, isSlice := item.([]interface{})
+		if !ok || !isSlice {
+			return "unsupported", false
+		}
+		iv, _ := r.arg(op.i)
+		jv, _ := r.arg(op.v)
+		i, ok1 := refToInt(iv)
+		j, ok2 := refToInt(jv)
+		if !ok1 || !ok2 || i < 0 || j < 0 || i >= len(it) || j >= len(it) {
+			return "err", false
+		}
+		it[i], it[j] = it[j], it[i]
+		return "ok", true
 	case "del":
 		item, _ := r.arg(op.a)
 		k, _ := r.arg(op.i)
@@ -327,6 +370,13 @@ func (op cop2) src() string {
 			return op.x + " += " + op.v.src()
 		}
 		return op.x + " = " + op.a.src() + " + " + op.v.src()
+	case "load":
+		if op.plusEq {
+			return "var " + op.x + " = " + op.a.src() + "[" + op.i.src() + "]"
+		}
+		return op.x + " = " + op.a.src() + "[" + op.i.src() + "]"
+	case "swap":
+		return op.x + "[" + op.i.src() + "], " + op.x + "[" + op.v.src() + "] = " + op.x + "[" + op.v.src() + "], " + op.x + "[" + op.i.src() + "]"
 	case "len":
 		return "len(" + op.a.src() + ")"
 	case "del":
@@ -365,6 +415,10 @@ func (op cop2) sexp(newCap int) string {
 		return fmt.Sprintf("(set %s %s %s %d)", op.x, op.i.sexp(), op.v.sexp(), newCap)
 	case "append":
 		return fmt.Sprintf("(append %s %s %s %d)", op.x, op.a.sexp(), op.v.sexp(), newCap)
+	case "load":
+		return "(load " + op.x + " " + op.a.sexp() + " " + op.i.sexp() + ")"
+	case "swap":
+		return "(swap " + op.x + " " + op.i.sexp() + " " + op.v.sexp() + ")"
 	case "len":
 		return "(len " + op.a.sexp() + ")"
 	case "del":
@@ -378,7 +432,7 @@ func streamCont(o *Out, r *rand.Rand, n int, thorough bool) {
 		"(incl. index = len: automatic append, map entries, string bytes), append by + and +=, len, delete; index operands over negative, in-range, = len, > len, numeric and " +
 		"non-numeric strings, booleans, nil, containers; each statement run by the interpreter, by a native Go reference on real []interface{} / map / string values (oracle: " +
 		"ok/error, values read, final contents incl. capacities and sharing) and by the Lean heap model (same lines); distinct by request hash"
-	names := []string{"a", "b", "c", "m", "s"}
+	names := []string{"a", "b", "c", "m", "s", "v1", "v2"}
 	for it := 0; it < n; it++ {
 		ref := &contRef{vars: map[string]interface{}{}}
 		e := env.NewEnv()
@@ -556,12 +610,32 @@ func streamCont(o *Out, r *rand.Rand, n int, thorough bool) {
 				if op.v.isVar && kindOf(op.v.name) == "string" {
 					op.v = scalar() // slice + string variable: conversion rules of + are C05's business
 				}
-			case k == 18:
+			case k == 18 && r.Intn(3) == 0:
 				nm, ok := pickVar("slice", "map", "string", "scalar")
 				if !ok {
 					continue
 				}
 				op = cop2{kind: "len", a: carg{isVar: true, name: nm}}
+			case k == 18 && r.Intn(2) == 0:
+				// bind the value read from a container to a variable (plain assignment or var)
+				nm, ok := pickVar("slice", "slice", "map", "string")
+				if !ok {
+					continue
+				}
+				op = cop2{kind: "load", x: []string{"v1", "v2"}[r.Intn(2)], a: carg{isVar: true, name: nm}, i: indexFor(lengthOf(nm)), plusEq: r.Intn(2) == 0}
+				if kindOf(nm) == "map" {
+					op.i = scalar()
+				}
+			case k == 18:
+				nm, ok := pickVar("slice")
+				if !ok {
+					continue
+				}
+				l := lengthOf(nm)
+				op = cop2{kind: "swap", x: nm, i: indexFor(l), v: indexFor(l)}
+				if l > 0 && r.Intn(3) != 0 {
+					op.i, op.v = carg{lit: int64(r.Intn(l))}, carg{lit: int64(r.Intn(l))}
+				}
 			default:
 				nm, ok := pickVar("map", "map", "slice")
 				if !ok {
